@@ -159,6 +159,20 @@ def cases(rng, tier):
                                 "script": [{"status": code, "to": ["http", "b.example", 8080, "/final"], "form": "abs"},
                                            {"status": 302, "to": ["http", "c.example", None, "/third"], "form": "abs"},
                                            {"status": 200, "to": None, "form": "abs"}, {"status": 200, "to": None, "form": "abs"}]})
+    # a start URL written without its scheme ("host/path": urllib3 reads it as http) x every Location form, first hop to another origin
+    for hk in ("dict", "hd", "default"):
+        for code in (301, 302, 303, 307, 308):
+            for tgt, form in ((["http", "b.example", 8080, "/final"], "schemerel"), (["http", "b.example", None, "/final"], "schemerel"), (["http", "b.example", 8080, "/final"], "abs"),
+                              (["http", "a.example", None, "/same"], "schemerel")):
+                out.append({"kind": "manager", "redirect": True, "assert_same_host": False, "start": ["http", "a.example", None, "/start"], "schemeless": True, "method": "GET", "body": False,
+                            "headers": [["Authorization", "s1"], ["Cookie", "c=1"], ["X-Keep", "1"]], "hkind": hk, "kw": ["retry", {"total": 5, "redirect": 5}], "pool": ["none"],
+                            "script": [{"status": code, "to": tgt, "form": form}, {"status": 200, "to": None, "form": "abs"}, {"status": 200, "to": None, "form": "abs"}]})
+    for _ in range(300 if tier == "quick" else 6000):
+        c = one_case(rng)
+        # (a relative Location cannot be resolved against a URL without a scheme: urljoin leaves it a bare path)
+        if c["kind"] == "manager" and c["start"][0] == "http" and c["start"][2] is None and c["script"][0]["form"] in ("abs", "schemerel"):
+            c["schemeless"] = True
+            out.append(c)
     return out
 
 
